@@ -1447,8 +1447,13 @@ func model_File_Close(f *os.File) error {
 
 //kvc:pure outputFileName
 
+// ASSUMED (NewGraph is outside the subset - go/types plumbing; decl_bounded executes it): a graph that is
+// accepted is well-formed in the sense Build relies on, and the import table keeps non-nil entries.
+//
 //kvc:contract NewGraph
 func contract_NewGraph(metaData *MetaData, build *BuildDirective, varPool *VarPool) (result *Graph, err error) {
+	vs.Ensures("accepted_graph_is_well_formed", vs.Implies(err == nil, graphWF(result)))
+	vs.Ensures("imports_nonnil", vs.Implies(vs.Old(importsNonNil(metaData.Imports)), importsNonNil(metaData.Imports)))
 	vs.ModifiesAll()
 	vs.Allocates()
 	return
@@ -1470,7 +1475,9 @@ func ghostRefusedBuild(err error) {
 
 //kvc:contract CreateInjector
 func contract_CreateInjector(metaData *MetaData, build *BuildDirective, varPool *VarPool) (result *Injector, err error) {
-	vs.Requires(build != nil)
+	vs.Requires(build != nil && metaData != nil && metaData.Imports != nil && importsNonNil(metaData.Imports) && varPool != nil)
+	vs.TypeInvariants()
+	vs.Ensures("imports_nonnil", importsNonNil(metaData.Imports))
 	vs.Ensures("refusal_is_counted", (err != nil && gRefused == vs.Old(gRefused)+1) || (err == nil && gRefused == vs.Old(gRefused)))
 	vs.Ensures("no_file_touched", gCreated == vs.Old(gCreated))
 	vs.ModifiesAll()
@@ -1491,7 +1498,7 @@ func contract_Generate(w io.Writer, filename string, metaData *MetaData, injecto
 
 // A processor owns one parser and one name pool for its whole life.
 //
-//kvc:final Processor.parser Processor.varPool
+//kvc:final Processor.parser Processor.varPool MetaData.Imports
 func processorWF(p *Processor) bool { return p != nil && p.parser != nil && p.varPool != nil }
 
 //kvc:contract NewParser
@@ -1511,6 +1518,7 @@ func contract_NewProcessor() (result *Processor) {
 //kvc:contract (*Processor).processFile
 func contract_Processor_processFile(p *Processor, filename string) (result error) {
 	vs.Requires(processorWF(p))
+	vs.TypeInvariants()
 	// if any declaration of the file is refused, no output file is created (or truncated) and an error is returned
 	vs.Ensures("no_output_when_a_declaration_is_refused", vs.Implies(gRefused > vs.Old(gRefused), gCreated == vs.Old(gCreated) && result != nil))
 	vs.Ensures("at_most_one_output_file", gCreated <= vs.Old(gCreated)+1)
@@ -1521,8 +1529,10 @@ func contract_Processor_processFile(p *Processor, filename string) (result error
 }
 
 //kvc:loop (*Processor).processFile "for _, build := range builds"
-func inv_processFile(kvcIdx int) {
+func inv_processFile(p *Processor, metaData *MetaData, builds []*BuildDirective, kvcIdx int) {
 	vs.Invariant("nothing_refused_nothing_created", gRefused == vs.Old(gRefused) && gCreated == vs.Old(gCreated))
+	vs.Invariant("env", processorWF(p) && metaData != nil && metaData.Imports != nil && importsNonNil(metaData.Imports) &&
+		vs.Forall(len(builds), func(i int) bool { return builds[i] != nil }))
 }
 
 //kvc:contract (*Processor).ProcessFiles
@@ -1619,6 +1629,11 @@ func contract_Graph_injectContextArg(g *Graph, injector *Injector, metaData *Met
 		len(injector.Args) == len(vs.Old(injector.Args))+1 &&
 			vs.Forall(len(vs.Old(injector.Args)), func(i int) bool { return injector.Args[i+1] == vs.Old(injector.Args)[i] })))
 	vs.Ensures("pool_inv", poolInv(varPool))
+	vs.Ensures("imports_nonnil", importsNonNil(metaData.Imports))
+	// registering the context argument never takes a completion channel away from a provider's value
+	vs.Ensures("provider_values_keep_their_channel", vs.ForallOldPtr(func(q *InjectorParam) bool {
+		return vs.Implies(!q.isArg && vs.Old(q.withChannel), q.withChannel)
+	}))
 	vs.Modifies(injector.Args, injector.Params, vs.FieldOfAll(injector.Args[0].Param.refCounter), vs.FieldOfAll(injector.Args[0].Param.withChannel),
 		vs.FieldOfAll(metaData.Imports[""].IsUsed), metaData.Imports, varPool.vars)
 	vs.Allocates()
